@@ -12,6 +12,8 @@ Inductive site_kind :=
 | K_rand       (* math/rand                                                          *)
 | K_goroutine  (* go statement                                                       *)
 | K_select     (* select statement                                                   *)
+| K_stack      (* import of runtime/debug; debug.Stack / PrintStack, runtime.Stack / Caller / Callers / FuncForPC *)
+| K_ptrfmt     (* fmt with %p, or of a chan / func / unsafe.Pointer / pointer-to-non-struct argument     *)
 | K_state.     (* process-level mutable state under x/: package variables / keeper-struct fields of
                   map, slice, chan or pointer type (detail: the sorted name:type list)               *)
 
